@@ -169,10 +169,13 @@ impl<'c> Slice<'c> {
             self.header.record_counter(),
         );
 
-        let mut records = vec![Record::default(); self.header.record_count()];
+        // The record count is not validated, i.e., the list grows as records are read.
+        let mut records = Vec::new();
 
-        for record in &mut records {
-            reader.read_record(record)?;
+        for _ in 0..self.header.record_count() {
+            let mut record = Record::default();
+            reader.read_record(&mut record)?;
+            records.push(record);
         }
 
         Ok(records)
